@@ -14,6 +14,7 @@
      and [pyset_map] / [pyset_eq_map] carry it through the nested frozensets.
    * the rotation search: loop_search with the generated test and step is rot_search (induction on the
      iteration count).
+   * GeoPolygon.__init__ (which GeoPolygon.copy() re-runs) = mk_poly / mk_outline.
    * copy(): value level = copy_single / copy_val (mk_poly for GeoPolygon); identity level: the generated
      sharing descriptor interpreted by copy_sobj_by / copy_mobj_by is copy_sobj / copy_obj. *)
 From GV Require Import Prelude ValueM ValueP ValueP2.
@@ -209,11 +210,22 @@ Section Eq.
     intros. cbn. rewrite dt_eqb_refl, andb_true_r.
     apply seteq_pyset; [exact coord_eqb_refl | exact coord_eqb_sym | exact coord_eqb_trans].
   Qed.
+  (* GeoPolygon.__init__: IndexError on the empty outline, else the ring closed and oriented by mk_outline *)
+  Lemma geq_poly_init : forall o hs d u b,
+    g_poly_init o hs d u b =
+    match o with [] => Err IndexError | _ => Ok (SArea (GPoly (mk_outline b o)) hs d) end.
+  Proof.
+    intros. unfold g_poly_init, mk_outline, close_ring. destruct o as [|c o]; [reflexivity|].
+    set (l := c :: o). destruct (coord_eqb (hd dflt l) (last l dflt)); cbn [negb]; cbv zeta;
+      destruct (xorb _ b); reflexivity.
+  Qed.
+  Lemma geq_poly_init_mk : forall o hs d u, g_poly_init o hs d u false = mk_poly o hs d.
+  Proof. intros. rewrite geq_poly_init. destruct o; reflexivity. Qed.
   Lemma geq_poly_copy : forall p,
     g_poly_copy p = mk_poly (pg_outline p) (pg_holes p) (pg_dt p) /\
     (pg_outline p <> [] -> g_poly_copy p = Ok (copy_single (of_poly p))).
   Proof.
-    intros. unfold g_poly_copy. rewrite dt_copy_id. split; [reflexivity|].
+    intros. unfold g_poly_copy. rewrite dt_copy_id, geq_poly_init_mk. split; [reflexivity|].
     unfold id, of_poly. destruct (pg_outline p); [congruence | reflexivity].
   Qed.
 
